@@ -48,7 +48,7 @@ func CheckC14(run *evid.Run) {
 	run.Rule = "scenarios in which every log has exactly one mutator goroutine (so its state chain S_0..S_m is recorded exactly, with logical call/return timestamps from one atomic clock) while other goroutines merge FROM it: live-append (source appended by 1-3 alternating writers while the destination merges it repeatedly), live-merge (source merges frozen logs and appends), symmetric cross-merge A.Join(B) || B.Join(A) with appends, rings A<-B<-C<-A; each free-running, with seeded noise at the hooks, and with directed plans that park the merging goroutine between its reads of the source (rawheads.enter / getentries.enter on the source) or while it holds its own lock (join.locked) until the other side progressed or was seen blocked. Offline checker per merge: terminated (state-based deadlock classifier), every head of the result is an entry of the result, the result is causally closed w.r.t. every entry ever created, and result = before U S_i for a recorded source state S_i inside the call/return window, heads = unreferenced entries of that union; race detector on all of it. Non-trivial = a merge during which the source completed or started a mutation (window of >=2 candidate states); distinct = scenario kind + regime + realised hook interleaving digest"
 	run.Assumptions = []string{"each log has a single mutator so Observe() right after its operation is its exact post-state; merges only read the source", "window bounds use one atomic logical clock read at the client boundary"}
 	opts := ChildOpts{Key: "C14", Race: true, RaceInScope: raceInLibrary, Batches: 2 * Workers(), Timeout: 20 * time.Minute,
-		Env: []string{fmt.Sprintf("VERIF_C14_N=%d", pick(run.Tier, 600, 12000))},
+		Env: []string{fmt.Sprintf("VERIF_C14_N=%d", pick(run.Tier, 845, 13000))}, // 13 scenario kinds x 65 (quick) / x 1000 (thorough)
 		OnDeath: func(last map[string]any, tail, kind string) (string, map[string]any) {
 			return "C14/process-died", det("kind", kind, "scenario", last["scenario"])
 		}}
